@@ -226,11 +226,38 @@ def check_cached_function_key(ctx, rule='A8k'):
         node = cfg.node_of(keyassign[0])
         sl = Slice(w)
         exprs = [keyassign[0].value] + [v for _, v, _, _ in sl.origins(keyassign[0].value, node) if v is not None]
+        # extract-method: a key computed by a private helper is read through the helper's return value, with the
+        # arguments substituted for its parameters
+        import copy
+        from .common import unit_functions
+        helpers = {h.name: h for h in unit_functions(ctx.prog, w)[1:]}
+        name_exprs = [keyassign[0].value]
+        for e in list(exprs):
+            for c in ast.walk(e):
+                h = helpers.get(call_name(c)) if isinstance(c, ast.Call) and isinstance(c.func, ast.Name) else None
+                if h is None:
+                    continue
+                ctx.touch(h)
+                sub = dict(zip(h.params, c.args))
+                sub.update({k.arg: k.value for k in c.keywords if k.arg})
+
+                class S(ast.NodeTransformer):
+                    def visit_Name(self, node):
+                        return copy.deepcopy(sub[node.id]) if node.id in sub and isinstance(node.ctx, ast.Load) \
+                            else node
+                hsl, hcfg = Slice(h), bc(h)
+                for r in (x for x in walk_fn(h) if isinstance(x, ast.Return) and x.value is not None):
+                    hx = [r.value] + [v for _, v, _, _ in hsl.origins(r.value, hcfg.node_of(r)) if v is not None]
+                    hx = [S().visit(copy.deepcopy(x)) for x in hx]
+                    exprs += hx
+                    name_exprs.append(hx[0])
         txt = ' '.join(norm(e) for e in exprs)
         ok_digest = 'hashlib.' in txt and 'hexdigest' in txt
-        ok_args = 'pickle.dumps(v) for v in args' in txt or ('args' in txt and 'pickle.dumps' in txt)
+        ok_args = any(isinstance(c, (ast.GeneratorExp, ast.ListComp)) and norm(c.generators[0].iter) == 'args' and
+                      'pickle.dumps' in norm(c.elt) for e in exprs for c in ast.walk(e)) or \
+            'pickle.dumps(args)' in txt
         ok_kwargs = 'kwargs.items()' in txt
-        ok_name = 'name' in names_of(keyassign[0].value)
+        ok_name = any('name' in names_of(e) for e in name_exprs)
         no_hash = not any(isinstance(c, ast.Call) and isinstance(c.func, ast.Name) and c.func.id == 'hash'
                           for e in exprs for c in ast.walk(e))
     for nm, ok, desc in (('digest', ok_digest, 'the key is a hashlib digest (stable across processes and hash seeds)'),
